@@ -236,6 +236,7 @@ def observe(spec, mask_seed, modes=('random',), wseed=0):
             ob['calc'][i] = calc_term(m.input_features_calculator, ids)
         except Exception as ex:
             ob['calc'][i] = 'EXC:%s' % type(ex).__name__
+    ob['buffers'] = {i: sorted(n for n in m._buffers if 'feat_calc' in n) for i, m in sorted(pit.items())}
     classes = {c: (fm.out_channels, isinstance(fm, PITFrozenFeaturesMasker)) for _, (c, fm) in cls.items()}
     ob['runs'] = []
     rng = random.Random(mask_seed)
@@ -376,6 +377,16 @@ def corpus():
     n = [{'k': 'in', 'shape': [2, 6]}, c1(0, 2, 3), {'k': 'relu', 'src': 1}, c1(2, 3, 3), c1(2, 3, 3), {'k': 'cat', 'src': [3, 4], 'dim': 2, 'sdim': -1, 'kw': True},
          c1(5, 3, 2), {'k': 'gap1d', 'src': 6}, {'k': 'flatten', 'src': 7, 'start': 1, 'form': 'fn'}, {'k': 'linear', 'src': 8, 'cin': 2, 'cout': 2, 'bias': True}]
     out.append(('negative-axis-time-cat', {'dim': 1, 'nodes': n}))
+    # nested calculators: squeeze of a trailing size-one axis (Flatten x1) followed by flatten over T = 5 (Flatten of Flatten),
+    # and a cat of a flattened and a squeezed-then-flattened tensor, unsqueezed and flattened again (Flatten of Concat of Flatten)
+    n = [{'k': 'in', 'shape': [2, 5, 5]}, _c2(0, 2, 4), {'k': 'gapw', 'src': 1}, {'k': 'squeeze', 'src': 2, 'dim': -1, 'form': 'fn'},
+         {'k': 'flatten', 'src': 3, 'start': 1, 'form': 'fn'}, {'k': 'linear', 'src': 4, 'cin': 20, 'cout': 2, 'bias': True}]
+    out.append(('nested-squeeze-flatten', {'dim': 2, 'nodes': n}))
+    n = [{'k': 'in', 'shape': [2, 5, 5]}, _c2(0, 2, 3), {'k': 'relu', 'src': 1}, {'k': 'flatten', 'src': 2, 'start': 1, 'form': 'method'},
+         _c2(2, 3, 2), {'k': 'gapw', 'src': 4}, {'k': 'squeeze', 'src': 5, 'dim': 3, 'form': 'method'}, {'k': 'flatten', 'src': 6, 'start': 1, 'form': 'fn'},
+         {'k': 'cat', 'src': [3, 7], 'dim': 1}, {'k': 'unsqueeze', 'src': 8, 'dim': 2, 'form': 'fn'}, {'k': 'flatten', 'src': 9, 'start': 1, 'form': 'fn'},
+         {'k': 'linear', 'src': 10, 'cin': 85, 'cout': 2, 'bias': True}]
+    out.append(('nested-cat-of-flatten-flatten', {'dim': 2, 'nodes': n}))
     for _, s in out:
         s['out'] = [len(s['nodes']) - 1]
     return out
@@ -438,6 +449,28 @@ def classes_of(spec):
                 out.append('cat-of-two-fixed-width-tensors')
             if len(set(x for x in lv if x[0] == 'F')) >= 2:
                 out.append('cat-of-two-flattened-tensors')
+    # nested calculators: a Flatten calculator (flatten from axis 1, squeeze of the last / features axis) over another one,
+    # directly or through a features-cat
+    def mkflat(j):
+        nd = nodes[j]
+        if nd['k'] == 'flatten':
+            return nd.get('start', 1) == 1
+        if nd['k'] == 'squeeze':
+            rank = len(sh[nd['src']]) + 1
+            a = nd['dim'] if nd['dim'] >= 0 else rank + nd['dim']
+            return a == 1 or rank - a == 1
+        return False
+
+    def back(j):
+        while nodes[j]['k'] in CG.PROP or nodes[j]['k'] == 'unsqueeze' or (nodes[j]['k'] in ('flatten', 'squeeze') and not mkflat(j)):
+            j = nodes[j]['src']
+        return j
+
+    def has_flat(j):
+        j = back(j)
+        return mkflat(j) or (iscat(j) and any(has_flat(x) for x in nodes[j]['src']))
+    if any(mkflat(i) and has_flat(nodes[i]['src']) for i in range(len(nodes))):
+        out.append('nested-flatten-calculators')
     # excluded / fixed modules tied to something searchable
     if spec.get('exclude_names') or spec.get('exclude_types'):
         out.append('excluded-layer-next-to-searchable')
@@ -498,7 +531,7 @@ def judge(spec, ob):
     return bad
 
 
-PRIORITY = ['axis-from-the-end:time-cat', 'axis-from-the-end:features-cat', 'axis-from-the-end:flatten', 'axis-from-the-end:squeeze', 'axis-from-the-end:unsqueeze', 'squeeze-trailing-axis-of-4d', 'cat-repeats-a-tensor', 'depthwise-after-cat', 'add-with-cat-operand', 'cat-of-two-fixed-width-tensors',
+PRIORITY = ['axis-from-the-end:time-cat', 'axis-from-the-end:features-cat', 'axis-from-the-end:flatten', 'axis-from-the-end:squeeze', 'axis-from-the-end:unsqueeze', 'nested-flatten-calculators', 'squeeze-trailing-axis-of-4d', 'cat-repeats-a-tensor', 'depthwise-after-cat', 'add-with-cat-operand', 'cat-of-two-fixed-width-tensors',
             'cat-of-two-flattened-tensors', 'excluded-layer-next-to-searchable']
 
 
@@ -664,6 +697,7 @@ def run(ctx):
             for kind, seed, spec, ob in ok_cases:
                 net = coq_net(spec)
                 exprs.append('run_static true %s' % net)
+                exprs.append('run_names true %s' % net)
                 for r in ob['runs']:
                     m = '[' + '; '.join('(%d, %s)' % (i, b2c(r['masks'][mk[0]])) for i, mk in sorted(ob['maskers'].items()) if mk is not None) + ']'
                     exprs.append('run_masks true %s %s' % (net, m))
@@ -671,7 +705,18 @@ def run(ctx):
             k = 0
             for kind, seed, spec, ob in ok_cases:
                 wfv, flags, calcv, maskv, names = vals[k]
-                k += 1
+                keys = vals[k + 1]
+                k += 2
+                # buffer names the model registers on each consumer vs the feat_calc_* buffers found on the module
+                want = {i: set() for i in ob['buffers']}
+                for cons, base, pre in keys:
+                    ps = ''.join('prev_' if t == 0 else 'prev_%d' % (t - 1) for t in pre)
+                    want.setdefault(int(cons), set()).update([ps + 'feat_calc_const', ps + 'feat_calc_mask'] if base == 0 else [ps + 'feat_calc_multiplier', ps + 'feat_calc_mask_expander'])
+                ctx.corr += len(want)
+                got = {i: set(v) for i, v in ob['buffers'].items()}
+                if want != got:
+                    bad_i = sorted(i for i in set(want) | set(got) if want.get(i) != got.get(i))[0]
+                    mm('registered buffer names', spec, {'layer': bad_i, 'model': sorted(want.get(bad_i, [])), 'impl': sorted(got.get(bad_i, []))})
                 auto = spec.get('autoconvert', True)
                 ctx.corr += 1
                 if wfv is not True or names is not True:
